@@ -7,9 +7,10 @@ for EVERY byte string.
 -/
 import TonVerif.Model.Crc
 import TonVerif.Proofs.Crc
+import TonVerif.Proofs.CrcFramed
 
 namespace TonVerif.Properties.C18
-open TonVerif TonVerif.Spec TonVerif.Proofs.Crc
+open TonVerif TonVerif.Spec TonVerif.Proofs.Crc TonVerif.Proofs.CrcFramed
 
 /-- the integer computed by the translated Python loop is the bitwise CRC-16/XMODEM. -/
 theorem c18_crc16_value (data : Bytes) (h : Bytes.WF data) :
@@ -59,6 +60,72 @@ theorem c18_crc32c (data : Bytes) (h : Bytes.WF data) (big : Bool) :
     rw [if_pos (by omega)] <;>
     simp [natToBE4, be32, le32, BitVec.toNat_ushiftRight, BitVec.toNat_setWidth,
       Nat.shiftRight_eq_div_pow]
+
+/-! ### Round 10: framed records - messages that drive the register to zero (the class the harness samples, for ALL inputs) -/
+
+/-- CRC-16/XMODEM of `record ‖ crc16(record) ‖ any number of zero bytes` is 0, for EVERY record: the two big-endian CRC bytes clear the
+shift register wherever they stand, and zero bytes keep it clear (bitwise definition). -/
+theorem c18_crc16_framed (m : List (BitVec 8)) (k : Nat) :
+    Spec.crc16 (m ++ be16 (Spec.crc16 m) ++ List.replicate k 0#8) = 0#16 := by
+  unfold Spec.crc16
+  rw [List.foldl_append, List.foldl_append]
+  generalize List.foldl byte16 0#16 m = c
+  simp only [be16, List.foldl_cons, List.foldl_nil]
+  rw [byte16_hi, byte16_lo, fold_zero16]
+
+/-- CRC-32C of `record ‖ little-endian UN-INVERTED register of the record ‖ any number of zero bytes` is 0xFFFFFFFF (register 0), for
+EVERY record (bitwise definition). -/
+theorem c18_crc32c_framed (m : List (BitVec 8)) (k : Nat) :
+    Spec.crc32c (m ++ le32 (Spec.crc32c m ^^^ 0xFFFFFFFF#32) ++ List.replicate k 0#8) = 0xFFFFFFFF#32 := by
+  unfold Spec.crc32c
+  rw [List.foldl_append, List.foldl_append]
+  generalize List.foldl byte32 0xFFFFFFFF#32 m = c
+  rw [BitVec.xor_assoc, BitVec.xor_self, BitVec.xor_zero]
+  simp only [le32, List.foldl_cons, List.foldl_nil]
+  rw [byte32_self c]
+  rw [show (c >>> 16) = (c >>> 8) >>> 8 by rw [← BitVec.shiftRight_add], byte32_self (c >>> 8)]
+  rw [show (c >>> 24) = ((c >>> 8) >>> 8) >>> 8 by rw [← BitVec.shiftRight_add, ← BitVec.shiftRight_add],
+    byte32_self ((c >>> 8) >>> 8)]
+  rw [byte32_self (((c >>> 8) >>> 8) >>> 8)]
+  rw [show (((c >>> 8) >>> 8) >>> 8) >>> 8 = 0#32 by
+    rw [← BitVec.shiftRight_add, ← BitVec.shiftRight_add, ← BitVec.shiftRight_add]; ext i hi; simp]
+  rw [fold_zero32]; rfl
+
+/-- the same for the CODE of `crc16` (translated from crc.py): if `crc16(data)` returns `c`, then `crc16(data + c + bytes(k))` returns
+`b'\x00\x00'`, for every byte string `data` and every `k` - whatever fast path the code takes, the register must pass through 0. -/
+theorem c18_crc16_framed_code (data : Bytes) (h : Bytes.WF data) (k : Nat) (c : Bytes)
+    (hc : Model.crc16 data = some c) :
+    Model.crc16 (data ++ c ++ List.replicate k 0) = some [0, 0] := by
+  rw [c18_crc16 data h] at hc
+  injection hc with hc
+  subst hc
+  rw [c18_crc16 _ (wf_framed _ _ k h (wf_map_toNat _))]
+  simp only [List.map_append, map_ofNat_toNat, List.map_replicate]
+  rw [show BitVec.ofNat 8 0 = 0#8 from rfl, c18_crc16_framed]
+  rfl
+
+/-- the same for the CODE of `crc32c`: if `crc32c(data)` (little-endian, the default) returns `c`, then
+`crc32c(data + bytes(b ^ 0xff for b in c) + bytes(k), byteorder)` returns `b'\xff\xff\xff\xff'` in either byte order. -/
+theorem c18_crc32c_framed_code (data : Bytes) (h : Bytes.WF data) (k : Nat) (c : Bytes) (big : Bool)
+    (hc : Model.crc32c data false = some c) :
+    Model.crc32c (data ++ c.map (fun b => b ^^^ 255) ++ List.replicate k 0) big = some [255, 255, 255, 255] := by
+  rw [c18_crc32c data h] at hc
+  injection hc with hc
+  subst hc
+  simp only [Bool.false_eq_true, if_false]
+  rw [map_xor255, ← le32_inv]
+  rw [c18_crc32c _ (wf_framed _ _ k h (wf_map_toNat _))]
+  simp only [List.map_append, map_ofNat_toNat, List.map_replicate]
+  rw [show BitVec.ofNat 8 0 = 0#8 from rfl, c18_crc32c_framed]
+  cases big <;> rfl
+
+/-- non-vacuity: the hypotheses of the two `_framed_code` theorems are met by a concrete record, and the conclusion is what the
+evaluated code gives on the framed message. -/
+example : Model.crc16 [49, 50, 51] = some [151, 82] := by decide +kernel
+example : Model.crc16 ([49, 50, 51] ++ [151, 82] ++ List.replicate 3 0) = some [0, 0] := by decide +kernel
+example : Model.crc32c [49, 50, 51] false = some [178, 47, 123, 16] := by decide +kernel
+example : Model.crc32c ([49, 50, 51] ++ [178, 47, 123, 16].map (fun b => b ^^^ 255) ++ List.replicate 5 0) true
+    = some [255, 255, 255, 255] := by decide +kernel
 
 /-! Sanity of the spec itself: the standard check values (tests, not proofs). -/
 def check9 : List (BitVec 8) := "123456789".toList.map (fun c => BitVec.ofNat 8 c.toNat)
